@@ -117,8 +117,18 @@ def run(res, tier, seed):
                     if hts != H:
                         res.violations.append(("header start time decoded wrongly", dict(ctx, got=str(tg.dt_of(hts)))))
                     res.add_case(("hdr", fmt, year, doy, ms), True, ctx)
+    # LAC passes whose first line number lies in the upper part of the 6-minute header window of the LAC rate (721 < n <= 2161),
+    # with the day / year boundaries that the first repair stage alters and the second one restores
+    for fmt in ("lac_klm", "lac_pod"):
+        for kind in ("newyear", "midnight-exact", "newyear-exact"):
+            for first_ in (800, 1500, 2100):
+                for _rep in range(2):
+                    plans.append((fmt, 200, kind + "@%d" % first_))
     for fmt, n, kind in plans:
-        p = tg.clean_pass(rng, fmt, n, kind)
+        forced = None
+        if "@" in kind:
+            kind, forced = kind.split("@")[0], int(kind.split("@")[1])
+        p = tg.clean_pass(rng, fmt, n, kind, first_forced=forced)
         data = tg.build(p)
         ctx = dict(fmt=fmt, n=n, kind=kind, first=p["nums"][0], gaps=p["gaps"], start=str(tg.dt_of(p["start"])),
                    header=str(tg.dt_of(p["header"])), header_reading=p["reading"], seed=seed)
